@@ -210,6 +210,14 @@ def gen_pool(rng, cfgname, size, uid0=0, gas_only=False):
         base["alpha"] = uid + 0.5
         pool.append(base)
         uid += 1
+        if base["pseudo"] is None and len(pool) < size and uid % 2 == 0 and \
+                any(is_ice(x) for x in base["R"] + base["P"]) and (len(base["R"]) > 1 or len(base["P"]) > 1):
+            # an ice species next to another species on one side: such a reaction gets an exact twin
+            # at once (the two are then added through different routes - text with '#', instance
+            # with the other surface prefix - which changes the name order of the species)
+            twin = dict(base, uid=uid, alpha=uid + 0.5)
+            pool.append(twin)
+            uid += 1
     return pool
 
 
